@@ -280,5 +280,11 @@ def run(prog, rep):
     rep.attempt(nan_prefill, prog, cd, rep)
     rep.attempt(buffer_origin, prog, cd, rep, kinds)
     rep.attempt(reader_stores, prog, cd, rep, kinds)
+    # stored in a FILE, the runs of a gapped track survive only if the track declares the bytes it writes: the container places the
+    # next block at offset + nBytes, so a track that under-declares its run table has its last frames overwritten (C02's identity,
+    # here for the gap-capable records only)
+    from .c02 import size_identity
+    gap_units = {u.name for u in cd.units.values() if u.cls is not None and u.cls.get("_segments", "getter") is not None}
+    rep.attempt(size_identity, prog, cd, rep, with_consumed=False, only=gap_units)
     rep.trusted += ["numpy contract: masked_invalid + clump_unmasked return the maximal runs of non-NaN entries as increasing, disjoint, non-adjacent slices"]
     rep.not_decided += ["the numpy contract itself over all 2^n masks", "tracks whose components disagree on where the NaNs are"]
